@@ -1102,7 +1102,7 @@ impl Prop for C09 {
     }
     fn budget(&self, tier: Tier) -> usize {
         match tier {
-            Tier::Quick => 1000,
+            Tier::Quick => 900,
             Tier::Thorough => 6500,
             Tier::Search => 2200,
         }
